@@ -354,6 +354,13 @@ func (u *Unit) execCallVals(st *State, fr *Frame, site ssa.Instruction, c *ssa.C
 		}
 	}
 	u.abstracted("dynamic call (heap havocked): " + strings.Join(desigs, "|"))
+	if c.IsInvoke() && c.Method != nil && (c.Method.Pkg() == nil || !strings.HasPrefix(c.Method.Pkg().Path(), modulePath)) {
+		// a method of an interface declared outside the module for which no contract is
+		// assumed: everything reachable is forgotten here. What fails afterwards on
+		// this path may fail only for that reason: a missing assumed contract, not a
+		// refutation (contracts/extern/std.spec lists the pure library calls)
+		st.weaken("call of the interface method " + c.Method.FullName() + ", for which no contract is assumed (add it to contracts/extern/*.spec)")
+	}
 	u.unknownCall(st, fr, site, sig, desigs, argT, true, k)
 }
 
@@ -930,6 +937,33 @@ func (u *Unit) applyContract(st *State, fr *Frame, site ssa.Instruction, callee 
 	if !trusted || contractHasClause(ct, "chan_effects") {
 		// an in-repo callee may send / receive / close on channels it can reach
 		u.havocChans(st)
+	}
+	// a callee of the module whose contract says when it may panic: the call may also end
+	// in that panic, with the callee's on_panic postconditions, and the caller's deferred
+	// functions and panic clauses then apply to it
+	if !trusted && callee != nil && (contractHasClause(ct, "panics_only_if") || contractHasClause(ct, "panic_ensures")) {
+		pst, pfr := st.Clone(), fr.cloneFor()
+		penv := &Env{u: u, st: pst, old: pre, vars: env.vars, pkg: env.pkg, fn: callee, assuming: true, freshLo: env.freshLo}
+		for i, cl := range ct.Clauses {
+			if cl.Kind != "panics_only_if" && cl.Kind != "panic_ensures" {
+				continue
+			}
+			if mentionsCallLog(cl.Expr) {
+				continue
+			}
+			penv.key = fmt.Sprintf("%s.pan%d", name, i)
+			g, err := penv.EvalBool(cl.Expr)
+			if err != nil {
+				continue
+			}
+			pst.Assume(g)
+		}
+		if u.Feasible(pst) {
+			u.bumpCalls(pst, desigs, args, nil)
+			pst.PanicFromCallee = true
+			pst.Trace = append(pst.Trace, "panic-in:"+name)
+			u.doPanic(pst, pfr, u.Fresh("panicval", SV), site)
+		}
 	}
 	// results
 	rts := resultTypes(sig)
@@ -1590,6 +1624,19 @@ func (u *Unit) builtin(st *State, fr *Frame, site ssa.Instruction, c *ssa.CallCo
 		k(st, fr, Val{T: NilV})
 		return
 	case "recover":
+		if st.Panicked {
+			// called while a panic is in flight (from a deferred function): it stops the
+			// panic and yields its value, which is never nil
+			st.Panicked = false
+			st.PanicFromCallee = false
+			v := st.PanicVal
+			if v.Op == "" && v.A == "" || v.String() == NilV.String() {
+				v = u.Fresh("panicval", SV)
+			}
+			st.Assume(Neq(v, NilV))
+			k(st, fr, Val{T: v})
+			return
+		}
 		k(st, fr, Val{T: NilV})
 		return
 	case "min", "max":
